@@ -144,8 +144,8 @@ def run(rep, tier, seed):
     # the decoder's length block is translated from the source on every run (gen/py2lean.py -> GenK.decodeLength;
     # Props/C09.source_length_decoding_is_model); the translation is run against the real decoder here
     from harness import kernels
-    kernels.obligations(rep, ['decodeLength'])
-    kernels.check(rep, drv, seed, 300 if tier == 'quick' else 20000, which=('decodeLength',))
+    kernels.obligations(rep, ['decodeLength', 'decodeTag'])
+    kernels.check(rep, drv, seed, 300 if tier == 'quick' else 20000, which=('decodeLength', 'decodeTag'))
     n = 1200 if tier == 'quick' else 40000
     per = 3 if tier == 'quick' else 6
     rep.rule = ('generated (type, value) x random choice scripts for lean/Asn1/X690.lean berVariant: length form per element '
